@@ -1,6 +1,7 @@
 #!/bin/bash
 # usage: tools/sweep.sh <tier> <seed> [ids...]  — runs checks from the current directory's copy of /verif
 export GOFLAGS=-mod=mod GOPROXY=off GOSUMDB=off GOTOOLCHAIN=local
+[ -n "$VP_RUN_REPO" ] && export VERIF_REPO=$VP_RUN_REPO
 export VERIF_DIR=$PWD VERIF_EVIDENCE_DIR=$PWD/evidence-sweep VERIF_REPLAY_DIR=$PWD/replays-sweep
 tier=$1; seed=$2; shift 2
 ids=${@:-C01 C02 C03 C04 C05 C06 C07 C08 C09 C10 C11 C12 C13 C14 C15 C16 C17 C18 C19}
